@@ -13,6 +13,21 @@ Ev == Trace[l]
 Noise == /\ Ev.action = "noise"
          /\ viol' = viol
          /\ div' = div \cup (IF Ev.got THEN {[trace |-> Ev.trace, step |-> Ev.seq, class |-> "unknown " \o Ev.unknown, sub |-> "answered"]} ELSE {})
+\* the stored tariff changes between two reads while ONE request is served: whatever cost the server applied, the tariff
+\* it puts into that answer is that cost (small plain numbers; exponent 0 for the integer tariffs used here)
+Pow10(n) == IF n <= 0 THEN 1 ELSE IF n = 1 THEN 10 ELSE IF n = 2 THEN 100 ELSE 1000
+Flip ==
+  /\ Ev.action = "flip"
+  /\ LET r == Ev.result
+         tc == IF r.digits >= 0 /\ r.exp >= 0 /\ r.exp <= 3 THEN r.digits * Pow10(r.exp) ELSE -1
+         V(c) == [prop |-> "C08", clause |-> c, trace |-> Ev.trace, step |-> Ev.seq,
+                  sit |-> [class |-> "changing", sub |-> Ev.args.sub, concurrent |-> FALSE]]
+         ok == /\ r.got /\ tc > 0
+               /\ (Ev.args.sub = "debit" => r.price = Ev.args.used * tc)
+               /\ (Ev.args.sub = "reserve" => r.allowed = Ev.args.money \div tc /\ r.price = r.allowed * tc)
+     IN /\ viol' = viol \cup (IF ~r.got THEN {V("answered")} ELSE {})
+                        \cup (IF r.got /\ ~ok THEN {V("answer_tariff_is_cost_applied")} ELSE {})
+        /\ div' = div
 StepSur ==
   LET cs  == Ev.args.cost
       r   == [sub |-> Ev.args.sub, consumed |-> Ev.args.consumed, quota |-> Ev.args.quota]
@@ -36,6 +51,6 @@ Finish == /\ l = Len(Trace) + 1
           /\ PrintT(<<"VF-RESULT", ToJson([consumed |-> l - 1, viol |-> viol, div |-> div])>>)
           /\ l' = l + 1 /\ UNCHANGED <<viol, div>>
 TInit == l = 1 /\ viol = {} /\ div = {}
-TNext == (l <= Len(Trace) /\ l' = l + 1 /\ (Step \/ Noise)) \/ Finish
+TNext == (l <= Len(Trace) /\ l' = l + 1 /\ (Step \/ Noise \/ Flip)) \/ Finish
 TSpec == TInit /\ [][TNext]_tvars
 =============================================================================
